@@ -244,6 +244,9 @@ func stripArgs(s *MStack) MStack {
 type aggCase struct {
 	gs  []MG
 	src string
+	// parsed, when set, is what the implementation made of the dump text whose DESCRIPTION is gs:
+	// the aggregation runs on the implementation's own parse, the oracles judge it by the description
+	parsed []MG
 }
 
 func snapshotOf(gs []MG) *stack.Snapshot { return &stack.Snapshot{Goroutines: sGs(gs)} }
@@ -284,6 +287,23 @@ func genAggCases(r *Rng, tier string, emit func(aggCase)) {
 				emit(aggCase{gs: mGs(s.Goroutines), src: "parsed"})
 			}
 		case 1:
+			if r.Chance(1, 3) {
+				// a dump judged by its description: headers carry further attributes after the lock flag
+				// (newer runtimes print ", synctest bubble N" / ", leaked" there)
+				d := GenDump(r, 8, 3)
+				if len(d) >= 2 && r.Bool() {
+					d[1].Locked = !d[0].Locked
+					d[1].State, d[1].Scan, d[1].Frames, d[1].Unavail, d[1].Created, d[1].Parent, d[1].Elided, d[1].ElidedAt, d[1].WaitMin = d[0].State, d[0].Scan, d[0].Frames, d[0].Unavail, d[0].Created, d[0].Parent, d[0].Elided, d[0].ElidedAt, d[0].WaitMin
+				}
+				txt := PrintCfg{FileIndent: "\t"}.Dump(d)
+				extra := []string{", synctest bubble 3", ", leaked", ", synctest bubble 12, leaked"}[r.Intn(3)]
+				txt = strings.ReplaceAll(txt, "locked to thread]:", "locked to thread"+extra+"]:")
+				s, _, _ := stack.ScanSnapshot(strings.NewReader(txt), io.Discard, &stack.Opts{})
+				if s != nil && len(s.Goroutines) == len(d) {
+					emit(aggCase{gs: ExpectedGoroutines(d), parsed: mGs(s.Goroutines), src: "described"})
+					continue
+				}
+			}
 			emit(aggCase{gs: GenSnapshot(r, 6), src: "constructed-small"})
 		default:
 			emit(aggCase{gs: GenSnapshot(r, maxG), src: "constructed"})
@@ -360,6 +380,9 @@ func runAgg(prop string, res *Result, pool *DrvPool, r *Rng) {
 				continue
 			}
 			snap := snapshotOf(c.gs)
+			if c.parsed != nil {
+				snap = snapshotOf(c.parsed)
+			}
 			before := jsonStr(mGs(snap.Goroutines))
 			var a *stack.Aggregated
 			if p := catch(func() { a = snap.Aggregate(lvl) }); p != nil {
